@@ -271,7 +271,10 @@ func (r *fsmRunner) isByte(v ssa.Value) bool {
 	return false
 }
 
-func callLabel(call *ssa.Call) string {
+func callLabel(call *ssa.Call) string { return callLabelP(call, nil) }
+
+// callLabelP: pretty, when given, renders an integer argument with the phis resolved along the walked path.
+func callLabelP(call *ssa.Call, pretty func(ssa.Value) string) string {
 	cal := call.Call.StaticCallee()
 	if cal == nil {
 		if call.Call.IsInvoke() {
@@ -291,7 +294,11 @@ func callLabel(call *ssa.Call) string {
 		le := newLinEnv(linOpts{})
 		var as []string
 		for _, a := range call.Call.Args[1:] {
-			as = append(as, le.pretty(le.norm(a)))
+			if pretty != nil {
+				as = append(as, pretty(a))
+			} else {
+				as = append(as, le.pretty(le.norm(a)))
+			}
 		}
 		return p + "." + cal.Name() + "(" + strings.Join(as, ",") + ")"
 	}
@@ -442,7 +449,10 @@ func (r *fsmRunner) walk(b *ssa.BasicBlock, p fsmPath, from int64, out *[]fsmTra
 			if _, isB := x.Call.Value.(*ssa.Builtin); isB {
 				continue
 			}
-			p.calls = append(p.calls, callLabel(x))
+			{
+				pp := p
+				p.calls = append(p.calls, callLabelP(x, func(v ssa.Value) string { return r.prettyOnPath(v, &pp) }))
+			}
 			if cal := x.Call.StaticCallee(); cal != nil {
 				if ei := errResultIndex(cal); ei >= 0 {
 					for _, ref := range *x.Referrers() {
